@@ -407,7 +407,7 @@ def check(run):
 
     def gen():
         gen_out["writers"] = generate(src)
-    proofs_ok = run.check_proofs("C19", gen=gen)
+    proofs_ok = run.check_proofs("C19", gen=gen, dirs=["C16"])
     model = None
     if "writers" in gen_out:
         wt = gen_out["writers"]
